@@ -46,7 +46,12 @@ Value& ROUNDExpression::value(Context & ctx) const
       break;
     case Type::NUMERIC:
       if (!a1.isNull())
-        d = std::pow(10, Integer(*a1.numeric()));
+      {
+        Numeric n = *a1.numeric();
+        if (!(n >= -9223372036854775808.0 && n < 9223372036854775808.0))
+          throw RuntimeError(EXC_RT_OUT_OF_RANGE);
+        d = std::pow(10, static_cast<Integer>(n));
+      }
       break;
     default:
       throw RuntimeError(EXC_RT_FUNC_ARG_TYPE_S, KEYWORDS[oper]);
